@@ -321,9 +321,9 @@ fn run_input(inp: &Input, bases: &[(String, Vec<u8>)]) -> (String, Vec<(String, 
     PEAK.store(CUR.load(Ordering::Relaxed), Ordering::Relaxed);
     let base_cur = CUR.load(Ordering::Relaxed);
     let dev = catch_unwind(AssertUnwindSafe(|| {
-        let (d, _) = futures::executor::block_on(qcow2_rs::utils::qcow2_alloc_dev(std::path::Path::new("sim0"), SimIo::new(&sim, 0), &cfg.params(false, false)))
+        let (d, _) = crate::world::block_on(qcow2_rs::utils::qcow2_alloc_dev(std::path::Path::new("sim0"), SimIo::new(&sim, 0), &cfg.params(false, false)))
             .map_err(|e| format!("{e:?}"))?;
-        futures::executor::block_on(d.qcow2_prep_io()).map_err(|e| format!("prep_io: {e:?}"))?;
+        crate::world::block_on(d.qcow2_prep_io()).map_err(|e| format!("prep_io: {e:?}"))?;
         Ok::<Dev, String>(d)
     }));
     let mut outcome;
@@ -357,7 +357,7 @@ fn run_input(inp: &Input, bases: &[(String, Vec<u8>)]) -> (String, Vec<(String, 
                             for o in offs.iter() {
                                 let len = (cs as usize).min(65536);
                                 let mut b = Qcow2IoBuf::<u8>::new(len);
-                                match futures::executor::block_on(dev.read_at(&mut b, *o)) {
+                                match crate::world::block_on(dev.read_at(&mut b, *o)) {
                                     Ok(_) => ok += 1,
                                     Err(_) => err += 1,
                                 }
@@ -365,7 +365,7 @@ fn run_input(inp: &Input, bases: &[(String, Vec<u8>)]) -> (String, Vec<(String, 
                         }
                         1 => {
                             for o in offs.iter() {
-                                match futures::executor::block_on(dev.get_mapping(*o)) {
+                                match crate::world::block_on(dev.get_mapping(*o)) {
                                     Ok(_) => ok += 1,
                                     Err(_) => err += 1,
                                 }
@@ -373,7 +373,7 @@ fn run_input(inp: &Input, bases: &[(String, Vec<u8>)]) -> (String, Vec<(String, 
                         }
                         2 => {
                             if vs <= (1 << 30) {
-                                match futures::executor::block_on(dev.check()) {
+                                match crate::world::block_on(dev.check()) {
                                     Ok(_) => ok += 1,
                                     Err(_) => err += 1,
                                 }
@@ -383,14 +383,14 @@ fn run_input(inp: &Input, bases: &[(String, Vec<u8>)]) -> (String, Vec<(String, 
                             let b = make_write_buf(512, 0x99);
                             for o in [3 * cs, 0] {
                                 if o < vs {
-                                    match futures::executor::block_on(dev.write_at(&b[..512], o)) {
+                                    match crate::world::block_on(dev.write_at(&b[..512], o)) {
                                         Ok(_) => ok += 1,
                                         Err(_) => err += 1,
                                     }
                                 }
                             }
                         }
-                        _ => match futures::executor::block_on(dev.flush_meta()) {
+                        _ => match crate::world::block_on(dev.flush_meta()) {
                             Ok(_) => ok += 1,
                             Err(_) => err += 1,
                         },
